@@ -438,7 +438,13 @@ def run(scenario, world):
             world.begin_op(fault)
             a = call(real.simulate, np.array(theta), np.array(op['times']))
             world.end_op()
-            if fault is not None and world.solver_runs and any(
+            if fault is not None and fault.get('kind') == 'nan' and any(
+                    'fault' in r for r in world.solver_runs):
+                # non-finite solver output without an exception: nothing
+                # documented to expect from this call; the comparison with a
+                # fresh model below shows whether the model survived it
+                world.probe('simulate_returned_non_finite_values')
+            elif fault is not None and world.solver_runs and any(
                     'fault' in r for r in world.solver_runs):
                 if not (is_exc(a) and a.type == 'SimulationError'):
                     raise Violation(
@@ -763,7 +769,8 @@ def generate(rng, index, tier):
             op['theta'] = gen_theta(rng, info)
             op['times'] = gen_times(rng)
             if faults_on and rng.random() < 0.2:
-                op['fault'] = {'at_run': 0, 'kind': 'fail'}
+                op['fault'] = {'at_run': 0, 'kind': rng.choice(
+                    ['fail', 'fail', 'nan'])}
         ops.append(op)
     return {'property': PROP, 'recipes': [recipe], 'ops': ops,
             'probe': {'theta': gen_theta(rng, info), 'times': gen_times(rng)},
